@@ -34,6 +34,7 @@ func NewKeeper(
 	if addr := ak.GetModuleAddress(types.ModuleName); addr == nil {
 		panic("the TIBC mt-transfer module account has not been set")
 	}
+	mk = wrapTokenKeeper(mk)
 
 	return Keeper{
 		cdc:        cdc,
